@@ -94,12 +94,10 @@ EXPORT int vfwprintf_s(FILE *restrict stream, const wchar_t *restrict fmt,
     }
 
 #if defined(HAVE_WCSSTR) || !defined(SAFECLIB_DISABLE_EXTENSIONS)
-    if (unlikely((p = wcsstr((wchar_t *)fmt, L"%n")))) {
-        if ((p - fmt == 0) || *(p - 1) != L'%') {
-            invoke_safe_str_constraint_handler("vfwprintf_s: illegal %n", NULL,
-                                               EINVAL);
-            return -(EINVAL);
-        }
+    if (unlikely((p = safec_wfmt_find_n(fmt)) != NULL)) {
+        invoke_safe_str_constraint_handler("vfwprintf_s: illegal %n", NULL,
+                                           EINVAL);
+        return -(EINVAL);
     }
 #elif defined(HAVE_WCSCHR)
     if (unlikely((p = wcschr(fmt, flen, L'n')))) {
